@@ -163,6 +163,10 @@ def ca(v):
         return 'd' + struct.pack('>d', v).hex()
     if isinstance(v, str):
         return 's' + vc.str_hex(v)
+    if isinstance(v, (list, tuple)):            # a known header field sent with a container-typed variant
+        return 'L[' + ''.join(ca(x) + ',' for x in v) + ']'
+    if isinstance(v, dict):
+        return 'D[' + ''.join(ca(k) + ':' + ca(x) + ',' for k, x in v.items()) + ']'
     return '?' + type(v).__name__
 
 
@@ -1664,6 +1668,10 @@ def run_general_forward(ctx, message, items):
         mo = {'ok': True, 'raw': d.get('raw')} if d['_head'] == 'ok' else {'ok': False, 'err': d.get('kind')}
         if mo.get('err') == 'Exception':
             ctx.stat('general-forward:model-Exception')
+            continue
+        if not impl['ok'] and mo != impl and body_stage_error(message, raw, fds):
+            # parseMessage failed while DECODING THE BODY (the codec's business: C01/C05); the driver's body codec is opaque
+            ctx.stat('general-forward:impl-fails-in-body-decode')
             continue
         if mo != impl:
             ctx.disagree('general-forward', rin, mo, impl,
